@@ -8,10 +8,13 @@ is accounted for:
 * `.thm name`     — a Lean definedness theorem (`Properties/C10.lean`, `Properties/C10b.lean`): for every well-formed
                     input every allocated cell is written before it is read and the result does not depend on the
                     initial heap contents;  the generated file checks that the named theorem exists;
-* `.poison h`     — exercised under allocation poisoning by harness `h` (differential runs with the fresh heap filled
-                    with 0x00 / 0xFF / 0xAA / PRNG bytes, bitwise comparison of the results, or exact comparison with the
-                    Lean model under a non-zero fill); `tools/alloc_cover.py` checks after the run that the allocation
-                    tracker really saw the site (otherwise it is reported under `uncovered_sites` and the obligation fails).
+* `.poison h`     — exercised under allocation poisoning by harness `h` of tools/checks/C10.json: `h_pipeline` runs
+                    every case with the fresh heap filled with 0x00 / 0xFF / 0xAA / PRNG bytes and compares the results
+                    bitwise (double); the `*_poison` harnesses are the exact-correspondence harnesses of other properties
+                    re-run under a PRNG fill (comparison with the Lean model and the exact oracles).
+                    `tools/alloc_cover.py` checks after every run that the allocation tracker (harness/poison.hpp) really
+                    saw the site in that harness; a site with no theorem that no run exercised is reported under
+                    `uncovered_sites` and fails the obligation.
 
 A site may have both.  A NEW site in the sources (e.g. `numa_vector<T> t(n)` turned into `t(n, false)`) has no entry here,
 so `Amgcl.Generated.AllocSites.alloc_sites_covered` fails.
@@ -34,150 +37,125 @@ deriving DecidableEq, Repr
 
 /-- site key ↦ how it is covered -/
 def cover : List (String × List Cover) := [
-  ("amgcl/adapter/block_matrix.hpp|unblock_matrix|A.ptr", [.poison "TODO"]),
-  ("amgcl/backend/builtin.hpp|crs::crs|ptr", [.poison "TODO"]),
-  ("amgcl/backend/builtin.hpp|crs::crs|col", [.poison "TODO"]),
-  ("amgcl/backend/builtin.hpp|crs::crs|val", [.poison "TODO"]),
-  ("amgcl/backend/builtin.hpp|crs::crs|ptr#2", [.poison "TODO"]),
-  ("amgcl/backend/builtin.hpp|crs::crs|col#2", [.poison "TODO"]),
-  ("amgcl/backend/builtin.hpp|crs::crs|val#2", [.poison "TODO"]),
-  ("amgcl/backend/builtin.hpp|crs::crs|ptr#3", [.poison "TODO"]),
-  ("amgcl/backend/builtin.hpp|crs::crs|col#3", [.poison "TODO"]),
-  ("amgcl/backend/builtin.hpp|crs::crs|val#3", [.poison "TODO"]),
-  ("amgcl/backend/builtin.hpp|crs::operator=|ptr", [.poison "TODO"]),
-  ("amgcl/backend/builtin.hpp|crs::operator=|col", [.poison "TODO"]),
-  ("amgcl/backend/builtin.hpp|crs::operator=|val", [.poison "TODO"]),
-  ("amgcl/backend/builtin.hpp|crs::set_size|ptr", [.poison "TODO"]),
-  ("amgcl/backend/builtin.hpp|crs::set_nonzeros|this.col+val", [.poison "TODO"]),
-  ("amgcl/backend/builtin.hpp|crs::set_nonzeros|col", [.poison "TODO"]),
-  ("amgcl/backend/builtin.hpp|crs::set_nonzeros|val", [.poison "TODO"]),
-  ("amgcl/backend/builtin.hpp|sum|C.ptr", [.poison "TODO"]),
-  ("amgcl/backend/builtin.hpp|sum|C.col+val", [.poison "TODO"]),
-  ("amgcl/backend/builtin.hpp|pointwise_matrix|Ap.col+val", [.poison "TODO"]),
-  ("amgcl/backend/builtin.hpp|numa_vector::numa_vector|p", [.poison "TODO"]),
-  ("amgcl/backend/builtin.hpp|numa_vector::resize|p", [.poison "TODO"]),
-  ("amgcl/backend/builtin.hpp|numa_vector::numa_vector|p#2", [.poison "TODO"]),
-  ("amgcl/backend/builtin.hpp|numa_vector::numa_vector|p#3", [.poison "TODO"]),
-  ("amgcl/backend/builtin.hpp|diagonal|dia", [.poison "TODO"]),
-  ("amgcl/backend/builtin.hpp|spectral_radius|b0", [.poison "TODO"]),
-  ("amgcl/backend/builtin.hpp|spectral_radius|b1", [.poison "TODO"]),
-  ("amgcl/coarsening/ruge_stuben.hpp|ruge_stuben::operators|P.col+val", [.poison "TODO"]),
-  ("amgcl/coarsening/ruge_stuben.hpp|ruge_stuben::connect|S.ptr", [.poison "TODO"]),
-  ("amgcl/coarsening/ruge_stuben.hpp|ruge_stuben::connect|S.val", [.poison "TODO"]),
-  ("amgcl/coarsening/ruge_stuben.hpp|ruge_stuben::connect|S.col", [.poison "TODO"]),
-  ("amgcl/coarsening/smoothed_aggr_emin.hpp|smoothed_aggr_emin::operators|Af.ptr", [.poison "TODO"]),
-  ("amgcl/coarsening/smoothed_aggr_emin.hpp|smoothed_aggr_emin::operators|Af.col+val", [.poison "TODO"]),
-  ("amgcl/coarsening/tentative_prolongation.hpp|tentative_prolongation|P.ptr", [.poison "TODO"]),
-  ("amgcl/coarsening/tentative_prolongation.hpp|tentative_prolongation|P.ptr#2", [.poison "TODO"]),
-  ("amgcl/coarsening/tentative_prolongation.hpp|tentative_prolongation|P.col+val", [.poison "TODO"]),
-  ("amgcl/detail/spgemm.hpp|spgemm_saad|C.ptr", [.poison "TODO"]),
-  ("amgcl/detail/spgemm.hpp|spgemm_saad|C.col+val", [.poison "TODO"]),
-  ("amgcl/detail/spgemm.hpp|spgemm_rmerge|C.ptr", [.poison "TODO"]),
-  ("amgcl/detail/spgemm.hpp|spgemm_rmerge|C.col+val", [.poison "TODO"]),
-  ("amgcl/mpi/coarsening/pmis.hpp|pmis::squared_interface|S_loc.ptr", [.poison "TODO"]),
-  ("amgcl/mpi/coarsening/pmis.hpp|pmis::squared_interface|S_rem.ptr", [.poison "TODO"]),
-  ("amgcl/mpi/coarsening/pmis.hpp|pmis::squared_interface|S_loc.col", [.poison "TODO"]),
-  ("amgcl/mpi/coarsening/pmis.hpp|pmis::squared_interface|S_rem.col", [.poison "TODO"]),
-  ("amgcl/mpi/coarsening/pmis.hpp|pmis::conn_strength|S_loc.val", [.poison "TODO"]),
-  ("amgcl/mpi/coarsening/pmis.hpp|pmis::conn_strength|S_rem.val", [.poison "TODO"]),
-  ("amgcl/mpi/coarsening/pmis.hpp|pmis::conn_strength|S_loc.col", [.poison "TODO"]),
-  ("amgcl/mpi/coarsening/pmis.hpp|pmis::conn_strength|S_rem.col", [.poison "TODO"]),
-  ("amgcl/mpi/coarsening/pmis.hpp|pmis::tentative_prolongation|P_loc.col+val", [.poison "TODO"]),
-  ("amgcl/mpi/coarsening/pmis.hpp|pmis::tentative_prolongation|P_rem.col+val", [.poison "TODO"]),
-  ("amgcl/mpi/coarsening/pmis.hpp|pmis::tentative_prolongation|P_loc.col+val#2", [.poison "TODO"]),
-  ("amgcl/mpi/coarsening/pmis.hpp|pmis::tentative_prolongation|P_rem.col+val#2", [.poison "TODO"]),
-  ("amgcl/mpi/coarsening/pmis.hpp|pmis::expand_conn|C.val", [.poison "TODO"]),
-  ("amgcl/mpi/coarsening/pmis.hpp|pmis::expand_conn|C.col", [.poison "TODO"]),
-  ("amgcl/mpi/coarsening/smoothed_aggregation.hpp|smoothed_aggregation::operators|Af_loc_val", [.poison "TODO"]),
-  ("amgcl/mpi/coarsening/smoothed_aggregation.hpp|smoothed_aggregation::operators|Af_rem_val", [.poison "TODO"]),
-  ("amgcl/mpi/coarsening/smoothed_aggregation.hpp|smoothed_aggregation::operators|Df", [.poison "TODO"]),
-  ("amgcl/mpi/cpr.hpp|cpr::init|fpp.ptr", [.poison "TODO"]),
-  ("amgcl/mpi/cpr.hpp|cpr::init|fpp.col+val", [.poison "TODO"]),
-  ("amgcl/mpi/cpr.hpp|cpr::init|App_loc.col+val", [.poison "TODO"]),
-  ("amgcl/mpi/cpr.hpp|cpr::init|App_rem.col+val", [.poison "TODO"]),
-  ("amgcl/mpi/cpr.hpp|cpr::init|scatter.ptr", [.poison "TODO"]),
-  ("amgcl/mpi/cpr.hpp|cpr::init|scatter.col+val", [.poison "TODO"]),
-  ("amgcl/mpi/direct_solver/solver_base.hpp|solver_base::init|A.ptr", [.poison "TODO"]),
-  ("amgcl/mpi/direct_solver/solver_base.hpp|solver_base::init|A.col+val", [.poison "TODO"]),
-  ("amgcl/mpi/direct_solver/solver_base.hpp|solver_base::init|a.ptr", [.poison "TODO"]),
-  ("amgcl/mpi/direct_solver/solver_base.hpp|solver_base::init|a.col+val", [.poison "TODO"]),
-  ("amgcl/mpi/distributed_matrix.hpp|distributed_matrix::distributed_matrix|A_loc.col+val", [.poison "TODO"]),
-  ("amgcl/mpi/distributed_matrix.hpp|distributed_matrix::distributed_matrix|A_rem.col+val", [.poison "TODO"]),
-  ("amgcl/mpi/distributed_matrix.hpp|remote_rows|m.ptr", [.poison "TODO"]),
-  ("amgcl/mpi/distributed_matrix.hpp|remote_rows|m.col+val", [.poison "TODO"]),
-  ("amgcl/mpi/distributed_matrix.hpp|remote_rows|B_nbr.ptr", [.poison "TODO"]),
-  ("amgcl/mpi/distributed_matrix.hpp|remote_rows|B_nbr.col+val", [.poison "TODO"]),
-  ("amgcl/mpi/distributed_matrix.hpp|product|C_loc.ptr", [.poison "TODO"]),
-  ("amgcl/mpi/distributed_matrix.hpp|product|C_rem.ptr", [.poison "TODO"]),
-  ("amgcl/mpi/distributed_matrix.hpp|product|C_loc.col+val", [.poison "TODO"]),
-  ("amgcl/mpi/distributed_matrix.hpp|product|C_rem.col+val", [.poison "TODO"]),
-  ("amgcl/mpi/distributed_matrix.hpp|spectral_radius|b0", [.poison "TODO"]),
-  ("amgcl/mpi/distributed_matrix.hpp|spectral_radius|b1", [.poison "TODO"]),
-  ("amgcl/mpi/distributed_matrix.hpp|spectral_radius|rem_col", [.poison "TODO"]),
-  ("amgcl/mpi/partition/parmetis.hpp|parmetis::partition|part", [.poison "TODO"]),
-  ("amgcl/mpi/partition/ptscotch.hpp|ptscotch::partition|part", [.poison "TODO"]),
-  ("amgcl/mpi/partition/util.hpp|graph_perm_matrix|I_loc.ptr", [.poison "TODO"]),
-  ("amgcl/mpi/partition/util.hpp|graph_perm_matrix|I_rem.ptr", [.poison "TODO"]),
-  ("amgcl/mpi/partition/util.hpp|graph_perm_matrix|I_loc.col+val", [.poison "TODO"]),
-  ("amgcl/mpi/partition/util.hpp|graph_perm_matrix|I_rem.col+val", [.poison "TODO"]),
-  ("amgcl/mpi/relaxation/spai0.hpp|spai0::spai0|m", [.poison "TODO"]),
-  ("amgcl/mpi/schur_pressure_correction.hpp|schur_pressure_correction::init|Kpp_loc.col+val", [.poison "TODO"]),
-  ("amgcl/mpi/schur_pressure_correction.hpp|schur_pressure_correction::init|Kpp_rem.col+val", [.poison "TODO"]),
-  ("amgcl/mpi/schur_pressure_correction.hpp|schur_pressure_correction::init|Kuu_loc.col+val", [.poison "TODO"]),
-  ("amgcl/mpi/schur_pressure_correction.hpp|schur_pressure_correction::init|Kuu_rem.col+val", [.poison "TODO"]),
-  ("amgcl/mpi/schur_pressure_correction.hpp|schur_pressure_correction::init|Kpu_loc.col+val", [.poison "TODO"]),
-  ("amgcl/mpi/schur_pressure_correction.hpp|schur_pressure_correction::init|Kpu_rem.col+val", [.poison "TODO"]),
-  ("amgcl/mpi/schur_pressure_correction.hpp|schur_pressure_correction::init|Kup_loc.col+val", [.poison "TODO"]),
-  ("amgcl/mpi/schur_pressure_correction.hpp|schur_pressure_correction::init|Kup_rem.col+val", [.poison "TODO"]),
-  ("amgcl/mpi/schur_pressure_correction.hpp|schur_pressure_correction::init|Kuu_dia", [.poison "TODO"]),
-  ("amgcl/mpi/subdomain_deflation.hpp|subdomain_deflation::init|az_loc.col+val", [.poison "TODO"]),
-  ("amgcl/mpi/subdomain_deflation.hpp|subdomain_deflation::init|az_rem.col+val", [.poison "TODO"]),
-  ("amgcl/mpi/subdomain_deflation.hpp|subdomain_deflation::init|E.ptr", [.poison "TODO"]),
-  ("amgcl/mpi/subdomain_deflation.hpp|subdomain_deflation::init|E.col+val", [.poison "TODO"]),
-  ("amgcl/preconditioner/cpr.hpp|cpr::first_scalar_pass|fpp.ptr", [.poison "TODO"]),
-  ("amgcl/preconditioner/cpr.hpp|cpr::first_scalar_pass|fpp.col+val", [.poison "TODO"]),
-  ("amgcl/preconditioner/cpr.hpp|cpr::first_scalar_pass|App.col+val", [.poison "TODO"]),
-  ("amgcl/preconditioner/cpr.hpp|cpr::init|scatter.ptr", [.poison "TODO"]),
-  ("amgcl/preconditioner/cpr.hpp|cpr::init|scatter.col+val", [.poison "TODO"]),
-  ("amgcl/preconditioner/cpr.hpp|cpr::init|fpp.ptr", [.poison "TODO"]),
-  ("amgcl/preconditioner/cpr.hpp|cpr::init|fpp.col+val", [.poison "TODO"]),
-  ("amgcl/preconditioner/cpr.hpp|cpr::init|scatter.ptr#2", [.poison "TODO"]),
-  ("amgcl/preconditioner/cpr.hpp|cpr::init|scatter.col+val#2", [.poison "TODO"]),
-  ("amgcl/preconditioner/cpr.hpp|cpr::init|App.col+val", [.poison "TODO"]),
-  ("amgcl/preconditioner/cpr.hpp|cpr::update_transfer|fpp.ptr", [.poison "TODO"]),
-  ("amgcl/preconditioner/cpr.hpp|cpr::update_transfer|fpp.col+val", [.poison "TODO"]),
-  ("amgcl/preconditioner/cpr_drs.hpp|cpr_drs::first_scalar_pass|fpp.ptr", [.poison "TODO"]),
-  ("amgcl/preconditioner/cpr_drs.hpp|cpr_drs::first_scalar_pass|fpp.col+val", [.poison "TODO"]),
-  ("amgcl/preconditioner/cpr_drs.hpp|cpr_drs::first_scalar_pass|App.col+val", [.poison "TODO"]),
-  ("amgcl/preconditioner/cpr_drs.hpp|cpr_drs::init|scatter.ptr", [.poison "TODO"]),
-  ("amgcl/preconditioner/cpr_drs.hpp|cpr_drs::init|scatter.col+val", [.poison "TODO"]),
-  ("amgcl/preconditioner/cpr_drs.hpp|cpr_drs::init|fpp.ptr", [.poison "TODO"]),
-  ("amgcl/preconditioner/cpr_drs.hpp|cpr_drs::init|fpp.col+val", [.poison "TODO"]),
-  ("amgcl/preconditioner/cpr_drs.hpp|cpr_drs::init|scatter.ptr#2", [.poison "TODO"]),
-  ("amgcl/preconditioner/cpr_drs.hpp|cpr_drs::init|scatter.col+val#2", [.poison "TODO"]),
-  ("amgcl/preconditioner/cpr_drs.hpp|cpr_drs::init|App.col+val", [.poison "TODO"]),
-  ("amgcl/preconditioner/cpr_drs.hpp|cpr_drs::update_transfer|fpp.ptr", [.poison "TODO"]),
-  ("amgcl/preconditioner/cpr_drs.hpp|cpr_drs::update_transfer|fpp.col+val", [.poison "TODO"]),
-  ("amgcl/preconditioner/schur_pressure_correction.hpp|schur_pressure_correction::init|Kuu.col+val", [.poison "TODO"]),
-  ("amgcl/preconditioner/schur_pressure_correction.hpp|schur_pressure_correction::init|Kup.col+val", [.poison "TODO"]),
-  ("amgcl/preconditioner/schur_pressure_correction.hpp|schur_pressure_correction::init|Kpu.col+val", [.poison "TODO"]),
-  ("amgcl/preconditioner/schur_pressure_correction.hpp|schur_pressure_correction::init|Kpp.col+val", [.poison "TODO"]),
-  ("amgcl/preconditioner/schur_pressure_correction.hpp|schur_pressure_correction::init|L", [.poison "TODO"]),
-  ("amgcl/relaxation/ilu0.hpp|ilu0::ilu0|L.col+val", [.poison "TODO"]),
-  ("amgcl/relaxation/ilu0.hpp|ilu0::ilu0|L.ptr", [.poison "TODO"]),
-  ("amgcl/relaxation/ilu0.hpp|ilu0::ilu0|U.col+val", [.poison "TODO"]),
-  ("amgcl/relaxation/ilu0.hpp|ilu0::ilu0|U.ptr", [.poison "TODO"]),
-  ("amgcl/relaxation/ilu0.hpp|ilu0::ilu0|D", [.poison "TODO"]),
-  ("amgcl/relaxation/iluk.hpp|iluk::iluk|D", [.poison "TODO"]),
-  ("amgcl/relaxation/ilup.hpp|symb_product|C.ptr", [.poison "TODO"]),
-  ("amgcl/relaxation/ilup.hpp|symb_product|C.col", [.poison "TODO"]),
-  ("amgcl/relaxation/ilup.hpp|ilup::ilup|P.val", [.poison "TODO"]),
-  ("amgcl/relaxation/ilut.hpp|ilut::ilut|L.col+val", [.poison "TODO"]),
-  ("amgcl/relaxation/ilut.hpp|ilut::ilut|L.ptr", [.poison "TODO"]),
-  ("amgcl/relaxation/ilut.hpp|ilut::ilut|U.col+val", [.poison "TODO"]),
-  ("amgcl/relaxation/ilut.hpp|ilut::ilut|U.ptr", [.poison "TODO"]),
-  ("amgcl/relaxation/ilut.hpp|ilut::ilut|D", [.poison "TODO"]),
-  ("amgcl/relaxation/spai0.hpp|spai0::spai0|m", [.poison "TODO"])]
+  ("amgcl/adapter/block_matrix.hpp|unblock_matrix|A.ptr", [.poison "h_pipeline"]),
+  ("amgcl/backend/builtin.hpp|crs::crs|col", [.thm "Amgcl.C10b.clone_defined", .poison "h_pipeline"]),
+  ("amgcl/backend/builtin.hpp|crs::crs|col#2", [.thm "Amgcl.C10b.crs_copy_defined", .poison "h_pipeline"]),
+  ("amgcl/backend/builtin.hpp|crs::crs|col#3", [.thm "Amgcl.C10b.clone_defined", .poison "h_pipeline"]),
+  ("amgcl/backend/builtin.hpp|crs::crs|ptr", [.thm "Amgcl.C10b.clone_defined", .poison "h_pipeline"]),
+  ("amgcl/backend/builtin.hpp|crs::crs|ptr#2", [.thm "Amgcl.C10b.crs_copy_defined", .poison "h_pipeline"]),
+  ("amgcl/backend/builtin.hpp|crs::crs|ptr#3", [.thm "Amgcl.C10b.clone_defined", .poison "h_pipeline"]),
+  ("amgcl/backend/builtin.hpp|crs::crs|val", [.thm "Amgcl.C10b.clone_defined", .poison "h_pipeline"]),
+  ("amgcl/backend/builtin.hpp|crs::crs|val#2", [.thm "Amgcl.C10b.crs_copy_defined", .poison "h_pipeline"]),
+  ("amgcl/backend/builtin.hpp|crs::crs|val#3", [.thm "Amgcl.C10b.clone_defined", .poison "h_pipeline"]),
+  ("amgcl/backend/builtin.hpp|crs::operator=|col", [.thm "Amgcl.C10b.clone_defined", .poison "h_pipeline"]),
+  ("amgcl/backend/builtin.hpp|crs::operator=|ptr", [.thm "Amgcl.C10b.clone_defined", .poison "h_pipeline"]),
+  ("amgcl/backend/builtin.hpp|crs::operator=|val", [.thm "Amgcl.C10b.clone_defined", .poison "h_pipeline"]),
+  ("amgcl/backend/builtin.hpp|crs::set_nonzeros|col", [.thm "Amgcl.C10b.two_pass_defined", .poison "h_pipeline"]),
+  ("amgcl/backend/builtin.hpp|crs::set_nonzeros|this.col+val", [.poison "h_pipeline"]),
+  ("amgcl/backend/builtin.hpp|crs::set_nonzeros|val", [.thm "Amgcl.C10b.two_pass_defined", .poison "h_pipeline"]),
+  ("amgcl/backend/builtin.hpp|crs::set_size|ptr", [.thm "Amgcl.C10b.two_pass_defined", .poison "h_pipeline"]),
+  ("amgcl/backend/builtin.hpp|diagonal|dia", [.thm "Amgcl.C10.diagonal_always_defined", .poison "h_pipeline"]),
+  ("amgcl/backend/builtin.hpp|numa_vector::numa_vector|p", [.thm "Amgcl.C10b.fill_vec_defined", .poison "h_pipeline"]),
+  ("amgcl/backend/builtin.hpp|numa_vector::numa_vector|p#2", [.thm "Amgcl.C10b.fill_vec_defined", .poison "h_pipeline"]),
+  ("amgcl/backend/builtin.hpp|numa_vector::numa_vector|p#3", [.thm "Amgcl.C10b.fill_vec_defined", .poison "h_pipeline"]),
+  ("amgcl/backend/builtin.hpp|numa_vector::resize|p", [.thm "Amgcl.C10b.fill_vec_defined", .poison "h_pipeline"]),
+  ("amgcl/backend/builtin.hpp|pointwise_matrix|Ap.col+val", [.poison "h_pipeline"]),
+  ("amgcl/backend/builtin.hpp|spectral_radius|b0", [.poison "h_pipeline"]),
+  ("amgcl/backend/builtin.hpp|spectral_radius|b1", [.poison "h_pipeline"]),
+  ("amgcl/backend/builtin.hpp|sum|C.col+val", [.thm "Amgcl.C10.sum_cells_all_written", .poison "h_pipeline"]),
+  ("amgcl/backend/builtin.hpp|sum|C.ptr", [.thm "Amgcl.C10.sum_cells_all_written", .poison "h_pipeline"]),
+  ("amgcl/coarsening/ruge_stuben.hpp|ruge_stuben::connect|S.col", [.poison "h_pipeline"]),
+  ("amgcl/coarsening/ruge_stuben.hpp|ruge_stuben::connect|S.ptr", [.poison "h_pipeline"]),
+  ("amgcl/coarsening/ruge_stuben.hpp|ruge_stuben::connect|S.val", [.thm "Amgcl.C10.connect_defined", .poison "h_pipeline"]),
+  ("amgcl/coarsening/ruge_stuben.hpp|ruge_stuben::operators|P.col+val", [.poison "h_pipeline"]),
+  ("amgcl/coarsening/smoothed_aggr_emin.hpp|smoothed_aggr_emin::operators|Af.col+val", [.poison "h_pipeline"]),
+  ("amgcl/coarsening/smoothed_aggr_emin.hpp|smoothed_aggr_emin::operators|Af.ptr", [.poison "h_pipeline"]),
+  ("amgcl/coarsening/tentative_prolongation.hpp|tentative_prolongation|P.col+val", [.thm "Amgcl.C10b.tentative_prolongation_defined", .poison "h_pipeline"]),
+  ("amgcl/coarsening/tentative_prolongation.hpp|tentative_prolongation|P.ptr", [.poison "h_pipeline"]),
+  ("amgcl/coarsening/tentative_prolongation.hpp|tentative_prolongation|P.ptr#2", [.thm "Amgcl.C10b.tentative_prolongation_defined", .poison "h_pipeline"]),
+  ("amgcl/detail/spgemm.hpp|spgemm_rmerge|C.col+val", [.poison "h_pipeline"]),
+  ("amgcl/detail/spgemm.hpp|spgemm_rmerge|C.ptr", [.poison "h_pipeline"]),
+  ("amgcl/detail/spgemm.hpp|spgemm_saad|C.col+val", [.thm "Amgcl.C10.product_cells_all_written", .poison "h_pipeline"]),
+  ("amgcl/detail/spgemm.hpp|spgemm_saad|C.ptr", [.thm "Amgcl.C10.product_cells_all_written", .poison "h_pipeline"]),
+  ("amgcl/mpi/coarsening/pmis.hpp|pmis::conn_strength|S_loc.col", [.poison "h_mpi_solve_poison"]),
+  ("amgcl/mpi/coarsening/pmis.hpp|pmis::conn_strength|S_loc.val", [.poison "h_mpi_solve_poison"]),
+  ("amgcl/mpi/coarsening/pmis.hpp|pmis::conn_strength|S_rem.col", [.poison "h_mpi_solve_poison"]),
+  ("amgcl/mpi/coarsening/pmis.hpp|pmis::conn_strength|S_rem.val", [.poison "h_mpi_solve_poison"]),
+  ("amgcl/mpi/coarsening/pmis.hpp|pmis::squared_interface|S_loc.col", [.poison "h_mpi_solve_poison"]),
+  ("amgcl/mpi/coarsening/pmis.hpp|pmis::squared_interface|S_loc.ptr", [.poison "h_mpi_solve_poison"]),
+  ("amgcl/mpi/coarsening/pmis.hpp|pmis::squared_interface|S_rem.col", [.poison "h_mpi_solve_poison"]),
+  ("amgcl/mpi/coarsening/pmis.hpp|pmis::squared_interface|S_rem.ptr", [.poison "h_mpi_solve_poison"]),
+  ("amgcl/mpi/coarsening/pmis.hpp|pmis::tentative_prolongation|P_loc.col+val#2", [.poison "h_mpi_solve_poison"]),
+  ("amgcl/mpi/coarsening/pmis.hpp|pmis::tentative_prolongation|P_rem.col+val#2", [.poison "h_mpi_solve_poison"]),
+  ("amgcl/mpi/coarsening/smoothed_aggregation.hpp|smoothed_aggregation::operators|Af_loc_val", [.poison "h_mpi_solve_poison"]),
+  ("amgcl/mpi/coarsening/smoothed_aggregation.hpp|smoothed_aggregation::operators|Af_rem_val", [.poison "h_mpi_solve_poison"]),
+  ("amgcl/mpi/coarsening/smoothed_aggregation.hpp|smoothed_aggregation::operators|Df", [.poison "h_mpi_solve_poison"]),
+  ("amgcl/mpi/direct_solver/solver_base.hpp|solver_base::init|A.col+val", [.poison "h_mpi_solve_poison"]),
+  ("amgcl/mpi/direct_solver/solver_base.hpp|solver_base::init|A.ptr", [.poison "h_mpi_solve_poison"]),
+  ("amgcl/mpi/direct_solver/solver_base.hpp|solver_base::init|a.col+val", [.poison "h_mpi_solve_poison"]),
+  ("amgcl/mpi/direct_solver/solver_base.hpp|solver_base::init|a.ptr", [.poison "h_mpi_solve_poison"]),
+  ("amgcl/mpi/distributed_matrix.hpp|distributed_matrix::distributed_matrix|A_loc.col+val", [.poison "h_mpi_solve_poison"]),
+  ("amgcl/mpi/distributed_matrix.hpp|distributed_matrix::distributed_matrix|A_rem.col+val", [.poison "h_mpi_solve_poison"]),
+  ("amgcl/mpi/distributed_matrix.hpp|product|C_loc.col+val", [.poison "h_mpi_solve_poison"]),
+  ("amgcl/mpi/distributed_matrix.hpp|product|C_loc.ptr", [.poison "h_mpi_solve_poison"]),
+  ("amgcl/mpi/distributed_matrix.hpp|product|C_rem.col+val", [.poison "h_mpi_solve_poison"]),
+  ("amgcl/mpi/distributed_matrix.hpp|product|C_rem.ptr", [.poison "h_mpi_solve_poison"]),
+  ("amgcl/mpi/distributed_matrix.hpp|remote_rows|B_nbr.col+val", [.poison "h_mpi_solve_poison"]),
+  ("amgcl/mpi/distributed_matrix.hpp|remote_rows|B_nbr.ptr", [.poison "h_mpi_solve_poison"]),
+  ("amgcl/mpi/distributed_matrix.hpp|remote_rows|m.col+val", [.poison "h_mpi_solve_poison"]),
+  ("amgcl/mpi/distributed_matrix.hpp|remote_rows|m.ptr", [.poison "h_mpi_solve_poison"]),
+  ("amgcl/mpi/distributed_matrix.hpp|spectral_radius|b0", [.poison "h_mpi_poison"]),
+  ("amgcl/mpi/distributed_matrix.hpp|spectral_radius|b1", [.poison "h_mpi_poison"]),
+  ("amgcl/mpi/distributed_matrix.hpp|spectral_radius|rem_col", [.poison "h_mpi_poison"]),
+  ("amgcl/mpi/partition/util.hpp|graph_perm_matrix|I_loc.col+val", [.poison "h_mpi_solve_poison"]),
+  ("amgcl/mpi/partition/util.hpp|graph_perm_matrix|I_loc.ptr", [.poison "h_mpi_solve_poison"]),
+  ("amgcl/mpi/partition/util.hpp|graph_perm_matrix|I_rem.col+val", [.poison "h_mpi_solve_poison"]),
+  ("amgcl/mpi/partition/util.hpp|graph_perm_matrix|I_rem.ptr", [.poison "h_mpi_solve_poison"]),
+  ("amgcl/mpi/relaxation/spai0.hpp|spai0::spai0|m", [.poison "h_mpi_solve_poison"]),
+  ("amgcl/preconditioner/cpr.hpp|cpr::first_scalar_pass|App.col+val", [.poison "h_pipeline"]),
+  ("amgcl/preconditioner/cpr.hpp|cpr::first_scalar_pass|fpp.col+val", [.poison "h_pipeline"]),
+  ("amgcl/preconditioner/cpr.hpp|cpr::first_scalar_pass|fpp.ptr", [.poison "h_pipeline"]),
+  ("amgcl/preconditioner/cpr.hpp|cpr::init|App.col+val", [.poison "h_pipeline"]),
+  ("amgcl/preconditioner/cpr.hpp|cpr::init|fpp.col+val", [.poison "h_pipeline"]),
+  ("amgcl/preconditioner/cpr.hpp|cpr::init|fpp.ptr", [.poison "h_pipeline"]),
+  ("amgcl/preconditioner/cpr.hpp|cpr::init|scatter.col+val", [.poison "h_pipeline"]),
+  ("amgcl/preconditioner/cpr.hpp|cpr::init|scatter.col+val#2", [.poison "h_pipeline"]),
+  ("amgcl/preconditioner/cpr.hpp|cpr::init|scatter.ptr", [.poison "h_pipeline"]),
+  ("amgcl/preconditioner/cpr.hpp|cpr::init|scatter.ptr#2", [.poison "h_pipeline"]),
+  ("amgcl/preconditioner/cpr.hpp|cpr::update_transfer|fpp.col+val", [.poison "h_pipeline"]),
+  ("amgcl/preconditioner/cpr.hpp|cpr::update_transfer|fpp.ptr", [.poison "h_pipeline"]),
+  ("amgcl/preconditioner/cpr_drs.hpp|cpr_drs::first_scalar_pass|App.col+val", [.poison "h_pipeline"]),
+  ("amgcl/preconditioner/cpr_drs.hpp|cpr_drs::first_scalar_pass|fpp.col+val", [.poison "h_pipeline"]),
+  ("amgcl/preconditioner/cpr_drs.hpp|cpr_drs::first_scalar_pass|fpp.ptr", [.poison "h_pipeline"]),
+  ("amgcl/preconditioner/cpr_drs.hpp|cpr_drs::init|App.col+val", [.poison "h_pipeline"]),
+  ("amgcl/preconditioner/cpr_drs.hpp|cpr_drs::init|fpp.col+val", [.poison "h_pipeline"]),
+  ("amgcl/preconditioner/cpr_drs.hpp|cpr_drs::init|fpp.ptr", [.poison "h_pipeline"]),
+  ("amgcl/preconditioner/cpr_drs.hpp|cpr_drs::init|scatter.col+val", [.poison "h_pipeline"]),
+  ("amgcl/preconditioner/cpr_drs.hpp|cpr_drs::init|scatter.col+val#2", [.poison "h_pipeline"]),
+  ("amgcl/preconditioner/cpr_drs.hpp|cpr_drs::init|scatter.ptr", [.poison "h_pipeline"]),
+  ("amgcl/preconditioner/cpr_drs.hpp|cpr_drs::init|scatter.ptr#2", [.poison "h_pipeline"]),
+  ("amgcl/preconditioner/cpr_drs.hpp|cpr_drs::update_transfer|fpp.col+val", [.poison "h_pipeline"]),
+  ("amgcl/preconditioner/cpr_drs.hpp|cpr_drs::update_transfer|fpp.ptr", [.poison "h_pipeline"]),
+  ("amgcl/preconditioner/schur_pressure_correction.hpp|schur_pressure_correction::init|Kpp.col+val", [.poison "h_pipeline"]),
+  ("amgcl/preconditioner/schur_pressure_correction.hpp|schur_pressure_correction::init|Kpu.col+val", [.poison "h_pipeline"]),
+  ("amgcl/preconditioner/schur_pressure_correction.hpp|schur_pressure_correction::init|Kup.col+val", [.poison "h_pipeline"]),
+  ("amgcl/preconditioner/schur_pressure_correction.hpp|schur_pressure_correction::init|Kuu.col+val", [.poison "h_pipeline"]),
+  ("amgcl/preconditioner/schur_pressure_correction.hpp|schur_pressure_correction::init|L", [.poison "h_pipeline"]),
+  ("amgcl/relaxation/ilu0.hpp|ilu0::ilu0|D", [.thm "Amgcl.C10b.ilu0_defined", .poison "h_pipeline"]),
+  ("amgcl/relaxation/ilu0.hpp|ilu0::ilu0|L.col+val", [.poison "h_pipeline"]),
+  ("amgcl/relaxation/ilu0.hpp|ilu0::ilu0|L.ptr", [.poison "h_pipeline"]),
+  ("amgcl/relaxation/ilu0.hpp|ilu0::ilu0|U.col+val", [.poison "h_pipeline"]),
+  ("amgcl/relaxation/ilu0.hpp|ilu0::ilu0|U.ptr", [.poison "h_pipeline"]),
+  ("amgcl/relaxation/iluk.hpp|iluk::iluk|D", [.poison "h_pipeline"]),
+  ("amgcl/relaxation/ilup.hpp|ilup::ilup|P.val", [.poison "h_pipeline"]),
+  ("amgcl/relaxation/ilup.hpp|symb_product|C.col", [.poison "h_pipeline"]),
+  ("amgcl/relaxation/ilup.hpp|symb_product|C.ptr", [.poison "h_pipeline"]),
+  ("amgcl/relaxation/ilut.hpp|ilut::ilut|D", [.poison "h_pipeline"]),
+  ("amgcl/relaxation/ilut.hpp|ilut::ilut|L.col+val", [.poison "h_pipeline"]),
+  ("amgcl/relaxation/ilut.hpp|ilut::ilut|L.ptr", [.poison "h_pipeline"]),
+  ("amgcl/relaxation/ilut.hpp|ilut::ilut|U.col+val", [.poison "h_pipeline"]),
+  ("amgcl/relaxation/ilut.hpp|ilut::ilut|U.ptr", [.poison "h_pipeline"]),
+  ("amgcl/relaxation/spai0.hpp|spai0::spai0|m", [.thm "Amgcl.C10b.spai0_defined", .poison "h_pipeline"])]
 
 def coveredKeys : List String := cover.map (·.1)
 
